@@ -26,8 +26,8 @@ MANIFEST = {
                 "the translator tools/gen_codec.py (regexes + a small C-expression translator; an unrecognised rewrite is reported as a "
                 "broken tie); libc behaviour (vsnprintf %d/%u/%lld/%llu, strtol/strtoul/strtoll/strtoull, glibc atoi/atoll, LP64) is "
                 "ASSUMED as Lean definitions - the integer theorems are relative to them, the real libc is exercised only by the "
-                "correspondence run; String's buffer management (reserve/resize/append, area Str) is not modelled: fromBase64's output "
-                "buffer is a fixed block of inlen bytes with checked writes, fromHex's result is built as a list.  The exhaustive runs "
+                "correspondence run; String's buffer management (reserve/resize/append, area Str) is not modelled: the result buffers of "
+                "fromBase64 (inlen bytes) and fromHex (2*size bytes) are fixed blocks with checked writes.  The exhaustive runs "
                 "(all code points, all byte strings <= 3 bytes, all base64 strings <= 4 symbols over 68 symbols) are TESTS of the tie, "
                 "not the proof.  No theorem is partial; isValid is proved bounds-safe and complete for encoder output, not that it "
                 "rejects every ill-formed string (it accepts over-long forms / surrogates / > U+10FFFF by design of the code).",
